@@ -34,15 +34,35 @@ Proof.
   intros Q. induction n as [|k IH]; intros m ch HQ HW; cbn [avt_repeat]; [exact HW|].
   pose proof (fallback_np Q m ch HW (or_introl HQ)) as G. destruct (fallback m ch) as [m1|m1|s|]; cbn in G |- *; auto.
 Qed.
-(* the count byte of ^Y is the one place where a wrapper feeds the ANSI parser more than once for one character *)
-Definition avt_rep (m : mach) : bool := (ea m =? 1) && (eb m =? 2).
-Lemma avatar_step_np : forall (Q : Prop) m ch, W (mt m) -> (Q \/ macros (ps (am m)) = []) -> (avt_rep m = true -> Q) ->
-  NPM Q (avatar_step m ch).
+(* ... and it cannot overflow the macro nesting when no macro is stored before the first repetition: a character other than
+   `\` leaves the macro table empty (astep_keeps_nomacro), and `\` never reaches the macro invoker (astep_np_not_z) *)
+Lemma fallback_keeps_nomacro : forall m ch, macros (ps (am m)) = [] -> ch <> 92 ->
+  match fallback m ch with MOk m1 | MErr m1 => macros (ps (am m1)) = [] | _ => True end.
 Proof.
-  intros Q m ch HW HQ HR. unfold avt_rep in HR. unfold avatar_step.
-  destruct (ea m =? 1) eqn:E1; destruct (eb m =? 2) eqn:E2;
+  intros m ch HM N. unfold fallback, ansi_step. pose proof (astep_keeps_nomacro MACRO_FUEL (am m) ch HM N) as G.
+  destruct (astep MACRO_FUEL (am m) ch); exact G.
+Qed.
+Lemma fallback_np_not_z : forall m ch, W (mt m) -> ch <> 122 -> NPM False (fallback m ch).
+Proof.
+  intros m ch HW N. unfold fallback, ansi_step. pose proof (astep_np_not_z MACRO_FUEL (am m) ch HW N) as G.
+  destruct (astep MACRO_FUEL (am m) ch); exact G.
+Qed.
+Lemma avt_repeat_np_nomacro : forall n m ch, W (mt m) -> macros (ps (am m)) = [] -> NPM False (avt_repeat n m ch).
+Proof.
+  intros n m ch HW HM. destruct (Z.eq_dec ch 92) as [E|N].
+  - clear HM. revert m HW. induction n as [|k IH]; intros m HW; cbn [avt_repeat]; [exact HW|].
+    assert (N : ch <> 122) by lia.
+    pose proof (fallback_np_not_z m ch HW N) as G. destruct (fallback m ch) as [m1|m1|s|]; cbn in G |- *; auto.
+  - revert m HW HM. induction n as [|k IH]; intros m HW HM; cbn [avt_repeat]; [exact HW|].
+    pose proof (fallback_np False m ch HW (or_intror HM)) as G. pose proof (fallback_keeps_nomacro m ch HM N) as K.
+    destruct (fallback m ch) as [m1|m1|s|]; cbn in G |- *; auto.
+Qed.
+Lemma avatar_step_np : forall (Q : Prop) m ch, W (mt m) -> (Q \/ macros (ps (am m)) = []) -> NPM Q (avatar_step m ch).
+Proof.
+  intros Q m ch HW HQ. unfold avatar_step.
   mwifs; first [ apply fallback_np; assumption | exact HW | mwok HW | mwlift HW | idtac ].
-  all: try (apply avt_repeat_np; [apply HR; reflexivity|exact HW]).
+  all: try (destruct HQ as [HQ|HM]; [apply avt_repeat_np; [exact HQ|exact HW]
+                                    |eapply npm_weaken; [|apply avt_repeat_np_nomacro; [exact HW|exact HM]]; intros []]).
   all: try (apply npm_ok; apply attr_from_u8_W; exact HW).
   all: try (apply npm_ok; apply set_cx_dec_W; exact HW).
 Qed.
@@ -71,11 +91,9 @@ Qed.
 
 (* ---- the five machines built on the ANSI parser -------------------------------------------------------------------------------------- *)
 Definition wrapper (e : emu) : bool := match e with EAnsi | EAvatar | EPcb | ECtrlA | ERenegade => true | _ => false end.
-Definition rep (e : emu) (m : mach) : bool := match e with EAvatar => avt_rep m | _ => false end.
-Lemma step_np : forall (Q : Prop) e m ch, wrapper e = true -> W (mt m) -> (Q \/ macros (ps (am m)) = []) -> (rep e m = true -> Q) ->
-  NPM Q (step e m ch).
+Lemma step_np : forall (Q : Prop) e m ch, wrapper e = true -> W (mt m) -> (Q \/ macros (ps (am m)) = []) -> NPM Q (step e m ch).
 Proof.
-  intros Q e m ch He HW HQ HR. destruct e; try discriminate; cbn [step].
+  intros Q e m ch He HW HQ. destruct e; try discriminate; cbn [step].
   - apply fallback_np; assumption.
   - apply avatar_step_np; assumption.
   - apply pcboard_step_np; assumption.
@@ -83,32 +101,30 @@ Proof.
   - apply renegade_step_np; assumption.
 Qed.
 
-(* a macro is stored, or (Avatar) the character is the repeat count of ^Y *)
-Definition Stored (e : emu) (m : mach) : Prop := macros (ps (am m)) <> [] \/ rep e m = true.
+(* a macro is stored *)
+Definition Stored (m : mach) : Prop := macros (ps (am m)) <> [].
 
 (* Every stream, from every W state: it runs through to a state (which satisfies W again), or it stops in the
    macro-nesting overflow, and then the character at which it stops was processed with a macro stored. *)
 Lemma run_np : forall e cs m, wrapper e = true -> W (mt m) ->
   (exists m', run e m cs = RunOk m' /\ W (mt m')) \/
-  (run e m cs = RunDiverge /\ exists pre c post m', cs = pre ++ c :: post /\ run e m pre = RunOk m' /\ Stored e m').
+  (run e m cs = RunDiverge /\ exists pre c post m', cs = pre ++ c :: post /\ run e m pre = RunOk m' /\ Stored m').
 Proof.
   intros e cs. induction cs as [|c r IH]; intros m He HW; [left; exists m; auto|].
-  assert (D : (macros (ps (am m)) = [] /\ rep e m = false) \/ Stored e m).
-  { unfold Stored. destruct (macros (ps (am m))); [|right; left; discriminate].
-    destruct (rep e m); [right; right; reflexivity|left; auto]. }
+  assert (D : macros (ps (am m)) = [] \/ Stored m).
+  { unfold Stored. destruct (macros (ps (am m))); [left; reflexivity|right; discriminate]. }
   assert (K : forall m1, (step e m c = MOk m1 \/ step e m c = MErr m1) -> W (mt m1) ->
            (exists m', run e m (c :: r) = RunOk m' /\ W (mt m')) \/
-           (run e m (c :: r) = RunDiverge /\ exists pre c' post m', c :: r = pre ++ c' :: post /\ run e m pre = RunOk m' /\ Stored e m')).
+           (run e m (c :: r) = RunDiverge /\ exists pre c' post m', c :: r = pre ++ c' :: post /\ run e m pre = RunOk m' /\ Stored m')).
   { intros m1 E H1. assert (R : forall l, run e m (c :: l) = run e m1 l) by (intro l; cbn [run]; destruct E as [E|E]; rewrite E; reflexivity).
     destruct (IH m1 He H1) as [(m' & E' & H')|(E' & pre & c' & post & m' & E1 & E2 & U)].
     - left. exists m'. rewrite R. auto.
     - right. rewrite R. split; [exact E'|]. exists (c :: pre), c', post, m'. repeat split; [rewrite E1; reflexivity| |exact U].
       rewrite R. exact E2. }
-  destruct D as [[HM HR]|U].
-  - assert (HRF : rep e m = true -> False) by (rewrite HR; discriminate).
-    pose proof (step_np False e m c He HW (or_intror HM) HRF) as G.
+  destruct D as [HM|U].
+  - pose proof (step_np False e m c He HW (or_intror HM)) as G.
     destruct (step e m c) as [m1|m1|s|] eqn:F; try contradiction; apply (K m1); auto.
-  - pose proof (step_np True e m c He HW (or_introl I) (fun _ => I)) as G.
+  - pose proof (step_np True e m c He HW (or_introl I)) as G.
     destruct (step e m c) as [m1|m1|s|] eqn:F; try contradiction; try (apply (K m1); auto).
     right. cbn [run]. rewrite F. split; [reflexivity|]. exists [], c, r, m. repeat split. exact U.
 Qed.
@@ -121,7 +137,7 @@ Lemma c01_wrappers_proof : forall e music bs w h cs,
   wrapper e = true -> 1 <= w <= 132 -> 1 <= h <= 60 ->
   (exists m', run e (init music bs w h) cs = RunOk m') \/
   (run e (init music bs w h) cs = RunDiverge /\
-   exists pre c post m', cs = pre ++ c :: post /\ run e (init music bs w h) pre = RunOk m' /\ Stored e m').
+   exists pre c post m', cs = pre ++ c :: post /\ run e (init music bs w h) pre = RunOk m' /\ Stored m').
 Proof.
   intros e music bs w h cs He Hw Hh.
   destruct (run_np e cs (init music bs w h) He (init_W music bs w h Hw Hh)) as [(m' & E & _)|R]; [left; exists m'; exact E|right; exact R].
